@@ -25,6 +25,10 @@ static Op fault_op(Rng& rng, const std::string& name, const std::string& ext) {
   if (k == "insline") f.set("hex", hex_encode(rng.pick({std::string("              $ comment\n"), std::string("                                       $ comment\n"), std::string("* comment\n"), std::string("\\ comment\n"), std::string("    $ c\n"),
                                                         std::string("uint:random_seed = abc\n"), std::string("uint:random_seed = 99999999999999999999999\n"), std::string("int:iterlimit = 99999999999\n"), std::string("real:feastol = 1e9999\n"), std::string("bool:lifting = maybe\n"), std::string("uint:random_seed = -1\n"),
                                                         std::string(" UP BND       x1        -0.0\n"), std::string(" c9: -0.0 x1 >= -0.0\n"), std::string("# comment\n")})));
+  // LP format: a section keyword in the wrong place makes the reader take the following constraint or bound lines as entries of that section (generated files have no integer sections of their own)
+  if (k == "insline" && ext == ".lp" && rng.chance(0.4)) f.set("hex", hex_encode(rng.pick({std::string("Generals\n"), std::string("Binaries\n"), std::string("General\n"), std::string("Binary\n"), std::string("Integers\n"), std::string("Bounds\n"), std::string("Subject To\n"), std::string("Generals\n x1 <= 3\n"), std::string("Binaries\n x.1\n")})));
+  // MPS files end with RHS/RANGES/BOUNDS, the sections with the least travelled parsing code: half of the extra lines for .mps go into the last quarter of the file as a fixed-format comment
+  if (k == "insline" && ext == ".mps" && rng.chance(0.5)) { f.seti("tail", 1); f.set("hex", hex_encode(rng.pick({std::string("              $ comment\n"), std::string("                                       $ comment\n"), std::string("              $\n")}))); }
   return f;
 }
 
